@@ -174,6 +174,7 @@ structure BmcState.Wf (s : BmcState) : Prop where
   chassis : s.chassis.Wf
   bootFlags : s.bootParams.All fun k d => k = 5 → 2 ≤ d.length
   lan : s.lan.All lanWf
+  lanRev : s.lanRev.All fun _ r => r < 256
   userNames : s.userNames.All fun _ n => n.length ≤ 16
   userEnabled : s.userEnabled.All fun _ e => e < 4
   maxUsers : s.maxUsers < 64
@@ -189,6 +190,8 @@ structure BmcState.Wf (s : BmcState) : Prop where
   pmGlobal : s.pmGlobal < 16
   hpmComponents : s.hpm.components < 256
   hpmSelftest2 : s.hpm.selftest2 < 256
+  hpmRollback : s.hpm.rollbackStatus < 256
+  hpmRollbackEstimate : ∀ e, s.hpm.rollbackEstimate = some e → e < 256
 
 /-! ### argument ranges -/
 
